@@ -246,12 +246,14 @@ class SubjectAnalysis:
             bad = {}; n_paths = 0; n_inv = 0; lazy_seen = dict(o=False, a=False, n=0); row_undecided = None
             for P, E in res:
                 if P.end in ('throw', 'noreturn'): continue
-                xf = common.extra_field_fork(P, 'tulz::Subject', (OBS, ACT, CNT))
-                if xf is not None:
+                xf = common.extra_field_fork(P, 'tulz::Subject', tuple(n_ for n_ in self.fields if n_ not in ObsDomain.extra_scalars) + (OBS, ACT, CNT))          # scalar members only: a member container that the round walks is RE.1's business
+                undec_path = xf is not None
+                if undec_path:
                     # the path was chosen by a test of a member the delivery tables know nothing about (a removal counter, a dirty flag):
-                    # whether "nothing changed since the snapshot" follows from it is not followed
-                    row_undecided = xf; continue
-                n_paths += 1
+                    # whether "nothing changed since the snapshot" follows from it is not followed.  What the round iterates (RE.1 / RE.4) does
+                    # not depend on that and is still judged
+                    row_undecided = xf
+                else: n_paths += 1
                 vis = [(i, c) for i, c in loop_visits(E, conds) if E[i].node.id == dcond]
                 bounds = [i for i, c in vis] + [len(E)]
                 oc = [i for i, e in enumerate(E) if e.kind == 'vcall' and e.name.endswith('operator()')]
@@ -291,6 +293,7 @@ class SubjectAnalysis:
                     late = [e for e in walk if not self._inside_removal(E, E.index(e))]
                     self.add('RE.4', not late, f'{short}::notify: m_observers is not walked any more once the first callback has run (the snapshot is complete)', (late[0].site if late else deliver.shortloc()),
                              '' if not late else 'observers are invoked while m_observers is being walked: one subscribed during the round is invoked in the same round / iterator invalidation', key='RE.4|snapshot-first')
+                if undec_path: continue
                 # complete iterations only: a path cut by the unroll bound ends inside its last iteration
                 for k in range(len(bounds) - 1):
                     lo, hi = bounds[k], bounds[k + 1]
